@@ -276,7 +276,7 @@ class FakeSnowflakeCursor:
             self._conn.schema = None
             self._conn.schema_set = False
 
-        elif set_schema := transformed.args.get("set_schema"):
+        if set_schema := transformed.args.get("set_schema"):
             self._conn.schema = set_schema
             self._conn.schema_set = True
 
